@@ -427,6 +427,7 @@ class Cex:
         self.detail = detail
         self.path = path or []
         self.kind = kind
+        self.alternatives = []
 
     def to_json(self):
         def enc(v):
@@ -710,7 +711,26 @@ class Explorer:
                     break
             if hit is None:
                 if sum(1 for c in self.cex if c.label == label) < self.max_cex_per_label:
-                    self.cex.append(Cex(label, vals, detail, list(self.prefix[: self.pos])))
+                    cx = Cex(label, vals, detail, list(self.prefix[: self.pos]))
+                    # alternative models (all real inputs moved off the first model's values): boundary-valued models
+                    # often do not survive the conversion to binary64, a generic one does
+                    cx.alternatives = []
+                    block = []
+                    mm = m
+                    for _alt in range(2):
+                        for k, v in self.inputs.items():
+                            if v.sort().kind() == z3.Z3_REAL_SORT:
+                                mv = mm.eval(v, model_completion=True)
+                                pv = z3_to_py(mv)
+                                if pv is None:
+                                    continue
+                                margin = _frac_to_z3(abs(Fraction(pv)) / 2**20 + Fraction(1, 2**20))
+                                block.append(z3.Or(v >= mv + margin, v <= mv - margin))
+                        if not block or self._check(neg, *extra, *block) != z3.sat:
+                            break
+                        mm = self.solver.model()
+                        cx.alternatives.append(self.model_values(mm))
+                    self.cex.append(cx)
                 return False
             self.known_hits.append((label, hit[0], vals))
             extra.append(z3.Not(hit[1]))
